@@ -346,12 +346,12 @@ func main() {
 	b.WriteString("/- GENERATED by harness/extract_c12 from api/ipfsproxy/ipfsproxy.go — do not edit.\n")
 	b.WriteString("   The hijack table of ipfsproxy.New as registered on the gorilla/mux router. -/\n")
 	b.WriteString("namespace CV.Gen.C12\n\n")
-	b.WriteString("structure Route where\n  tpl : String\n  segs : List String\n  handler : String\n  slash : Bool\n  name : String\nderiving DecidableEq, Repr\n\n")
+	b.WriteString("structure Route where\n  tpl : String\n  segs : List String\n  pats : List (Option (List Nat))\n  handler : String\n  slash : Bool\n  name : String\nderiving DecidableEq, Repr\n\n")
 	b.WriteString("/-- `router.Methods(...)` of the hijack sub-router -/\n")
 	b.WriteString("def methods : List String := " + llist(methods) + "\n\n")
 	b.WriteString("/-- `.PathPrefix(...)` of the hijack sub-router -/\n")
 	b.WriteString("def pathPrefix : String := " + lstr(prefix) + "\n\n")
-	b.WriteString("/-- `hijackSubrouter.Path(tpl).HandlerFunc(h).Name(n)` in source order; `segs` = (prefix ++ tpl) split on '/' -/\n")
+	b.WriteString("/-- `hijackSubrouter.Path(tpl).HandlerFunc(h).Name(n)` in source order; `segs` = (prefix ++ tpl) split on '/', `pats` = the same as ASCII bytes, `none` for `{arg}` -/\n")
 	b.WriteString("def routes : List Route := [\n")
 	for i, r := range routes {
 		segs := strings.Split(prefix+r.tpl, "/")
@@ -359,8 +359,20 @@ func main() {
 		if i == len(routes)-1 {
 			sep = ""
 		}
-		fmt.Fprintf(&b, "  { tpl := %s, segs := %s, handler := %s, slash := %v, name := %s }%s\n",
-			lstr(r.tpl), llist(segs), lstr(r.handler), r.slash, lstr(r.name), sep)
+		pats := make([]string, len(segs))
+		for j, sg := range segs {
+			if sg == "{arg}" {
+				pats[j] = "none"
+				continue
+			}
+			nums := make([]string, len(sg))
+			for k := 0; k < len(sg); k++ {
+				nums[k] = strconv.Itoa(int(sg[k]))
+			}
+			pats[j] = "some [" + strings.Join(nums, ", ") + "]"
+		}
+		fmt.Fprintf(&b, "  { tpl := %s, segs := %s,\n    pats := [%s],\n    handler := %s, slash := %v, name := %s }%s\n",
+			lstr(r.tpl), llist(segs), strings.Join(pats, ", "), lstr(r.handler), r.slash, lstr(r.name), sep)
 	}
 	b.WriteString("]\n\n")
 	b.WriteString("/-- registrations made directly on the top router: (matcher, argument, handler) -/\n")
